@@ -96,9 +96,18 @@ Presence(c, b) ==
 
 HdrDamaged(c, b) == \E w \in {"csize", "usize", "count", "crc", "flags", "reforge"} : HasB(c, w, b)
 \* the block parser starts at the wrong offset
-Misaligned(c) == Has(c, "namelen") \/ (\E d \in DS(c) : d.w = "version" /\ d.v = "flip" /\ c.s.named /\ c.s.ver = 3)
-HeaderRefused(c) == Has(c, "garbage") \/ Has(c, "cutfh") \/ Has(c, "cutname") \/ Has(c, "magic")
-                    \/ (\E d \in DS(c) : d.w = "version" /\ d.v = "other")
+VersionFlip(c) == \E d \in DS(c) : d.w = "version" /\ d.v = "flip"
+Misaligned(c) == \/ Has(c, "namelen")
+                 \/ (VersionFlip(c) /\ c.s.named /\ c.s.ver = 3)
+                 \* a version-2 header read as version 3 takes two formerly ignored bytes for the name length
+                 \/ (VersionFlip(c) /\ c.s.ver = 2 /\ Has(c, "ignored"))
+HasTail(c) == Has(c, "appendshort") \/ Has(c, "appendlong")
+\* a cut inside the file header or the name that is filled up again (appended bytes), or whose remainder is read
+\* differently (version flip, changed name length): the header may parse, what follows is arbitrary
+Mangled(c) == \/ (Has(c, "cutfh") /\ HasTail(c))
+              \/ (Has(c, "cutname") /\ (HasTail(c) \/ VersionFlip(c) \/ Has(c, "namelen")))
+HeaderRefused(c) == \/ Has(c, "garbage") \/ Has(c, "magic") \/ (\E d \in DS(c) : d.w = "version" /\ d.v = "other")
+                    \/ ((Has(c, "cutfh") \/ Has(c, "cutname")) /\ ~Mangled(c))
 
 \* reading the blocks in order: <<status, lossy>>; status "go" | "stop" | "err" | "any"
 Step(c, st, b) ==
@@ -128,11 +137,11 @@ Harmless(c) == \E d \in DS(c) : d.w \in {"ignored", "name", "flags"} \/ (d.w = "
 
 Read(c) ==
   IF HeaderRefused(c) THEN {"err"}
-  ELSE IF Misaligned(c) THEN Sound
+  ELSE IF Mangled(c) \/ Misaligned(c) THEN Sound
   ELSE LET r == Blocks(c)
            lossy == r[2] \/ Has(c, "dup") \/ Has(c, "swap")
            maps == IF lossy THEN {"subset", "full"} ELSE {"full"}
-           tail == Has(c, "appendshort") \/ Has(c, "appendlong")
+           tail == HasTail(c)
        IN CASE r[1] = "err" -> {"err"}
             [] r[1] = "any" -> Sound
             \* bytes appended behind a cut continue the cut block: whatever they are parsed as
@@ -143,7 +152,7 @@ Read(c) ==
 \* does the reader parse a block header out of bytes that are not an intact header at its place?
 ParsesForeignHeader(c) ==
   /\ ~HeaderRefused(c)
-  /\ \/ Misaligned(c)
+  /\ \/ Misaligned(c) \/ Mangled(c)
      \/ \E b \in 1..c.s.n : HasB(c, "csize", b) /\ Presence(c, b) \in {"full", "hdronly", "paypart"}
      \/ (Has(c, "appendlong") /\ Blocks(c)[1] \in {"go", "stop"})
      \/ (Has(c, "appendshort") /\ Blocks(c)[1] = "stop")
@@ -167,7 +176,7 @@ IntactReadsFull == case.ds = <<>> => Read(case) = {"full"}
 PayloadCrcAlwaysErr ==
   (\E b \in 1..case.s.n : (HasB(case, "payload", b) \/ HasB(case, "crc", b)) /\ Presence(case, b) = "full"
                            /\ \A j \in 1..(b - 1) : Presence(case, j) = "full")
-  /\ ~Misaligned(case) /\ ~HeaderRefused(case)
+  /\ ~Misaligned(case) /\ ~Mangled(case) /\ ~HeaderRefused(case)
   => Read(case) = {"err"}
 \* memory in proportion to the file
 ReadBounded == Cost(case) = {"ok"}
